@@ -1,6 +1,7 @@
 package props
 
 import (
+	"go/token"
 	"fmt"
 	"go/types"
 	"strings"
@@ -173,6 +174,7 @@ func (c *Ctx) storedRetainedImmutable() {
 
 // cloneBeforeMutate: G7 + T7 at the QoS-downgrade sites of retained deliveries.
 func (c *Ctx) cloneBeforeMutate() {
+	c.cloneIsDeep()
 	var sites []*ssa.Function
 	for _, fn := range c.P.Funcs {
 		if len(c.calls(fn, pkgTopics, "Manager", "Retained")) > 0 {
@@ -428,4 +430,53 @@ func (c *Ctx) pruneGuards() {
 	}
 	c.R.Count("trie prune sites", n)
 	c.R.Floor("trie prune sites (sremove, rremove)", n, 2)
+}
+
+// cloneIsDeep: G7 relies on PublishMessage.Clone returning a message that shares no memory with the
+// original. Structurally: nothing loaded from the receiver (the whole struct, or one of its slice
+// fields) is stored into the object Clone returns; the copy is rebuilt from freshly allocated bytes.
+func (c *Ctx) cloneIsDeep() {
+	fn := c.P.Func("message", "PublishMessage", "Clone")
+	if fn == nil {
+		c.R.Unresolved("message.PublishMessage.Clone")
+		return
+	}
+	recv := ssa.Value(fn.Params[0])
+	fromRecv := func(v ssa.Value) bool {
+		v = ir.SeeThrough(v)
+		u, ok := v.(*ssa.UnOp)
+		if !ok || u.Op != token.MUL {
+			return false
+		}
+		if ir.SeeThrough(u.X) == recv {
+			return true // *m: the whole struct, slice headers included
+		}
+		p := ir.PathOf(u.X)
+		if p.Root != recv || len(p.Fields) == 0 {
+			return false
+		}
+		switch u.Type().Underlying().(type) {
+		case *types.Slice, *types.Struct, *types.Pointer, *types.Map:
+			return true
+		}
+		return false
+	}
+	var bad []string
+	for _, b := range fn.Blocks {
+		for _, in := range b.Instrs {
+			st, ok := in.(*ssa.Store)
+			if !ok {
+				continue
+			}
+			root := ir.PathOf(st.Addr).Root
+			if root == recv {
+				continue // Clone may update the receiver itself (Len() sets the remaining length)
+			}
+			if fromRecv(st.Val) {
+				bad = append(bad, c.P.InstrPos(st))
+			}
+			// append([]T(nil), m.f...) style copies are fresh: st.Val is then the append call, not the load
+		}
+	}
+	c.R.Check(len(bad) == 0, ruleG7, "PublishMessage.Clone:shares-nothing-with-the-original", c.P.Pos(fn.Pos()), "no slice or struct value of the receiver is stored into the clone", "Clone copies slice headers of the original into the clone ("+joinStr(bad, ", ")+"): a mutator applied to the clone (SetQoS on the retained-delivery path) rewrites bytes of the stored retained message and of its encoded image")
 }
